@@ -124,8 +124,17 @@ func (v *Validator) typeOfValue(val types.Value) (cedarType, error) {
 	case types.String:
 		return typeString{}, nil
 	case types.EntityUID:
+		return v.typeOfEntityUID(val)
+	case types.Decimal:
+		return typeExtension{name: "decimal"}, nil
+	case types.IPAddr:
+		return typeExtension{name: "ipaddr"}, nil
+	case types.Datetime:
+		return typeExtension{name: "datetime"}, nil
+	case types.Duration:
+		return typeExtension{name: "duration"}, nil
 	}
-	return v.typeOfEntityUID(val.(types.EntityUID))
+	return nil, fmt.Errorf("unsupported literal of type %T", val)
 }
 
 func (v *Validator) typeOfEntityUID(uid types.EntityUID) (cedarType, error) {
